@@ -241,7 +241,13 @@ def run(ck: Check, repo: Repo) -> None:
     # ---- C05.3 size / C05.5 elite first / C05.4 indices / C05.6 parents
     scfg = CFG(sel.node)
     stb = TermBuilder(repo, sel, cfg=scfg, depth=0)
-    apps = [(c, scfg.node_of(c)) for c in calls_in(sel.node) if call_name(c) == "new_population.append"]
+    # the new population: the local list that receives the appended members (checked below to be the one returned)
+    recv = sorted({c.func.value.id for c in calls_in(sel.node) if last_attr(c) == "append" and isinstance(c.func, ast.Attribute)
+                   and isinstance(c.func.value, ast.Name)})
+    srets = [n for n in scfg.live_nodes() if n.kind == "stmt" and isinstance(n.ast, ast.Return)]
+    returned = {dotted(n.ast.value.elts[1]) for n in srets if isinstance(n.ast.value, ast.Tuple) and len(n.ast.value.elts) == 2}
+    newpop = next((x for x in recv if x in returned), recv[0] if len(recv) == 1 else None)
+    apps = [(c, scfg.node_of(c)) for c in calls_in(sel.node) if newpop is not None and call_name(c) == f"{newpop}.append"]
     loops = [n for n in scfg.live_nodes() if n.kind == "for"]
     ck.ob("C05.3", sel, sel.node, len(loops) == 1 and len(apps) == 2, "members are added in one elite branch and one tournament loop", construct="append sites in select")
     if len(loops) == 1 and len(apps) == 2:
@@ -277,7 +283,8 @@ def run(ck: Check, repo: Repo) -> None:
             ck.ob("C05.5", sel, out_loop[0][0], scfg.dominates(out_loop[0][1], L) or out_loop[0][1].lineno < L.lineno and L.id in scfg.reachable_from(out_loop[0][1]),
                   "the elite is appended before any tournament winner (first position)")
             ea = out_loop[0][0].args[0]
-            ok = isinstance(ea, ast.Call) and last_attr(ea) == "clone" and dotted(ea.func.value) == "elite"
+            ok = isinstance(ea, ast.Call) and last_attr(ea) == "clone" and isinstance(ea.func, ast.Attribute) \
+                and _from_elitism(scfg, out_loop[0][1], ea.func.value) == 0
             ck.ob("C05.5", sel, ea, ok, "the first member is a clone of the elite returned by _elitism")
             if ok:
                 idx_arg = get_kw(ea, "index", 0)
@@ -332,9 +339,11 @@ def run(ck: Check, repo: Repo) -> None:
         a = mx[0].ast.value.args[0]
         ok = isinstance(a, (ast.ListComp, ast.GeneratorExp)) and dotted(a.generators[0].iter) == "population" and isinstance(a.elt, ast.Attribute) and a.elt.attr == "index" and not a.generators[0].ifs
     ck.ob("C05.4", eli, mx[0].ast if mx else eli.node, ok, "max_id is the maximum index over the whole old population")
-    srets = [n for n in scfg.live_nodes() if n.kind == "stmt" and isinstance(n.ast, ast.Return)]
-    ck.ob("C05.3", sel, srets[0].ast if srets else sel.node, len(srets) == 1 and isinstance(srets[0].ast.value, ast.Tuple) and [dotted(x) for x in srets[0].ast.value.elts] == ["elite", "new_population"],
-          "select returns (elite, new population)")
+    ok = len(srets) == 1 and isinstance(srets[0].ast.value, ast.Tuple) and len(srets[0].ast.value.elts) == 2
+    if ok:
+        e0, e1 = srets[0].ast.value.elts
+        ok = _from_elitism(scfg, srets[0], e0) == 0 and newpop is not None and dotted(e1) == newpop
+    ck.ob("C05.3", sel, srets[0].ast if srets else sel.node, ok, "select returns (elite, new population)")
     # tournament_selection_and_mutation wires select -> mutation
     tsm = repo.fn("agilerl.utils.utils", "tournament_selection_and_mutation")
     tc = CFG(tsm.node)
@@ -360,6 +369,25 @@ def _phi_alts(tb: TermBuilder, p: Poly) -> List[Poly]:
     from ..terms import expand_phi
 
     return expand_phi(tb, p)
+
+
+def _from_elitism(cfg: CFG, at: Node, e: ast.AST) -> Optional[int]:
+    """Position in the tuple returned by self._elitism(population) that the local `e` holds at node `at`
+    (None when e is not a local bound only by unpacking that call)."""
+    if not isinstance(e, ast.Name) or at is None:
+        return None
+    pos = set()
+    for d in cfg.defs_reaching(at, e.id):
+        s = d.ast
+        if not (d.kind == "stmt" and isinstance(s, ast.Assign) and len(s.targets) == 1 and isinstance(s.targets[0], ast.Tuple)
+                and isinstance(s.value, ast.Call) and call_name(s.value) == "self._elitism"
+                and [dotted(a) for a in s.value.args] == ["population"] and not s.value.keywords):
+            return None
+        hit = [i for i, t in enumerate(s.targets[0].elts) if dotted(t) == e.id]
+        if len(hit) != 1:
+            return None
+        pos.add(hit[0])
+    return pos.pop() if len(pos) == 1 else None
 
 
 def _tuple_pos(cfg: CFG, at: Node, name: str) -> Optional[int]:
